@@ -4,6 +4,7 @@ import (
 	"encoding/json"
 	"fmt"
 	"github.com/ExocoreNetwork/exocore/utils"
+	abci "github.com/cometbft/cometbft/abci/types"
 	"github.com/cosmos/cosmos-sdk/codec"
 	banktypes "github.com/cosmos/cosmos-sdk/x/bank/types"
 	"math/big"
@@ -326,6 +327,29 @@ func (m *Machine) Apply(a *Action) (Outcome, error) {
 			}
 		}
 		return Outcome{OK: ok, Included: true, Note: fmt.Sprintf("found=%v id=%s", found, slashID)}, nil
+	case "evidence":
+		// double-sign evidence delivered by the consensus engine in RequestBeginBlock: the real
+		// x/evidence path (slash + jail + tombstone through the staking interface)
+		c.EndBlock()
+		c.Commit()
+		if c.Halted != nil {
+			return Outcome{}, nil
+		}
+		cons := m.Keys[a.Key].ConsAddr()
+		var pw int64 = a.Power
+		if _, v := c.ValSet.GetByAddress(cons); v != nil {
+			pw = v.VotingPower
+		}
+		h := c.Height + 1 - a.Back
+		if h < 1 {
+			h = 1
+		}
+		ev := abci.Misbehavior{
+			Type: abci.MisbehaviorType_DUPLICATE_VOTE, Validator: abci.Validator{Address: cons, Power: pw},
+			Height: h, Time: c.Time, TotalVotingPower: c.ValSet.TotalVotingPower(),
+		}
+		c.BeginBlock(time.Duration(maxInt(a.Dt, 1))*time.Second, &sim.BlockOpts{Evidence: []abci.Misbehavior{ev}})
+		return Outcome{OK: true, Included: true}, nil
 	case "jail", "unjail":
 		if err := m.nextBlock(maxInt(a.Dt, 1)); err != nil {
 			return Outcome{}, err
